@@ -109,16 +109,95 @@ package mqtt
 // verif:def ifl(cl *Client) map = cl.State.Inflight.internal
 // verif:def hasT(cl *Client, id uint16, t byte) bool = has(cl.State.Inflight.internal, id) && cl.State.Inflight.internal[id].FixedHeader.Type == t
 // verif:def quotaInv(i *Inflight) bool = 0 <= i.receiveQuota && i.receiveQuota <= i.maximumReceiveQuota && 0 <= i.sendQuota && i.sendQuota <= i.maximumSendQuota
-// verif:def validCl(cl *Client) bool = cl != nil && cl.State.Inflight != nil && cl.State.Inflight.internal != nil && cl.ops != nil && cl.ops.hooks != nil && quotaInv(cl.State.Inflight)
+// verif:def validCl(cl *Client) bool = cl != nil && cl.ops != nil && cl.ops.options != nil && cl.ops.options.Capabilities != nil && cl.ops.options.Capabilities.Compatibilities != nil && cl.ops.info != nil && cl.State.Inflight != nil && cl.Net.Conn != nil && cl.State.Inflight.internal != nil && cl.ops != nil && cl.ops.hooks != nil && quotaInv(cl.State.Inflight)
+// assumption A-config: the capabilities object of the server options is installed before the server runs
+// (ensureDefaults, called from New) and not replaced afterwards
+// verif:frozen mqtt.Options.Capabilities
 // verif:def validSrv(s *Server) bool = s != nil && s.Info != nil && s.hooks != nil && s.Options != nil && s.Options.Capabilities != nil && s.Options.Capabilities.Compatibilities != nil && 0 <= s.Options.Capabilities.MaximumMessageExpiryInterval && s.Options.Capabilities.MaximumMessageExpiryInterval <= 4611686018427387904 && cntOK(s)
 // counters stay far from the int64 limits (2^62 events do not happen)
 // verif:def cntOK(s *Server) bool = -4611686018427387904 <= s.Info.Inflight && s.Info.Inflight <= 4611686018427387904 && -4611686018427387904 <= s.Info.Subscriptions && s.Info.Subscriptions <= 4611686018427387904
 
-// verif:func mqtt.Client.WritePacket trusted
+// ghost: the "sent" trace of a client is appended by the OnPacketSent dispatcher (trusted), which WritePacket
+// calls exactly when it has handed the packet's bytes to the connection or its output buffer
+// verif:func mqtt.Hooks.OnPacketSent trusted
 //@ modifies cl.nsent, cl.sentpk
-//@ ensures accepted: r0 == nil ==> cl.nsent == old(cl.nsent) + 1 && cl.sentpk[old(cl.nsent)] == pk
-//@ ensures refused: r0 != nil ==> cl.nsent == old(cl.nsent)
+//@ ensures cl.nsent == old(cl.nsent) + 1 && cl.sentpk[old(cl.nsent)] == pk
+//@ ensures forall k int :: k < old(cl.nsent) ==> cl.sentpk[k] == old(cl.sentpk[k])
+// assumption A-hooks: the encode hook returns the packet with the same header, identifiers, codes, flags and size limits
+// verif:func mqtt.Hooks.OnPacketEncode trusted pure
+//@ ensures r0.FixedHeader == pk.FixedHeader && r0.PacketID == pk.PacketID && r0.ReasonCode == pk.ReasonCode && r0.ReasonCodes == pk.ReasonCodes && r0.SessionPresent == pk.SessionPresent && r0.Mods == pk.Mods && r0.ProtocolVersion == pk.ProtocolVersion && r0.TopicName == pk.TopicName && r0.Properties.TopicAlias == pk.Properties.TopicAlias && r0.Properties.MessageExpiryInterval == pk.Properties.MessageExpiryInterval && r0.Expiry == pk.Expiry
+
+// same packet as far as the handlers' claims go (the encoder-facing fields Mods / ProtocolVersion / expiry interval are set by WritePacket)
+// verif:def samePk(a Packet, b Packet) bool = a.FixedHeader == b.FixedHeader && a.PacketID == b.PacketID && a.ReasonCode == b.ReasonCode && a.ReasonCodes == b.ReasonCodes && a.SessionPresent == b.SessionPresent && a.TopicName == b.TopicName && a.Properties.TopicAlias == b.Properties.TopicAlias
+
+// verif:func mqtt.Client.WritePacket
+//@ modifies cl.nsent, cl.sentpk, lastNow, cl.Net.outbuf, cl.Net.outbuf.rpos, cl.Net.outbuf.blen, cl.Net.outbuf.bdata, cl.ops.info.BytesSent, cl.ops.info.PacketsSent, cl.ops.info.MessagesSent
+//@ requires cl != nil && cl.ops != nil
+//@ requires cl.ops.options != nil
+//@ requires cl.ops.options.Capabilities != nil
+//@ requires cl.ops.hooks != nil
+//@ requires cl.ops.info != nil
+//@ ensures accepted: r0 == nil && cl.Net.Conn != nil ==> cl.nsent == old(cl.nsent) + 1 && samePk(cl.sentpk[old(cl.nsent)], pk)
+//@ ensures refused: r0 != nil || old(cl.Net.Conn) == nil ==> cl.nsent == old(cl.nsent)
 //@ ensures older-kept: forall k int :: k < old(cl.nsent) ==> cl.sentpk[k] == old(cl.sentpk[k])
+//@ ensures C23-sent-for-the-clients-protocol-version: r0 == nil && cl.Net.Conn != nil ==> cl.sentpk[old(cl.nsent)].ProtocolVersion == old(cl.Properties.ProtocolVersion)
+//@ ensures C23-problem-information-only-if-allowed: r0 == nil && cl.Net.Conn != nil && old(cl.Properties.Props.RequestProblemInfoFlag) && old(cl.Properties.Props.RequestProblemInfo) == 0 ==> cl.sentpk[old(cl.nsent)].Mods.DisallowProblemInfo
+//@ ensures C25-message-expiry-interval-at-most-the-time-remaining: r0 == nil && cl.Net.Conn != nil && pk.Expiry > 0 ==> int64(cl.sentpk[old(cl.nsent)].Properties.MessageExpiryInterval) <= pk.Expiry - unixOf(lastNow) || pk.Expiry - unixOf(lastNow) < 1
+// every byte of an accepted packet goes out under the client's maximum packet size (asserted where the bytes leave the function)
+// verif:func mqtt.Client.WritePacket$1 inline
+//@ callsite bytes.Buffer.WriteTo C23-within-maximum-packet-size: pk.Mods.MaxSize == 0 || buf.blen - buf.rpos <= int(pk.Mods.MaxSize) || arg0 != buf
+//@ callsite bytes.Buffer.Write C23-within-maximum-packet-size: pk.Mods.MaxSize == 0 || buf.blen - buf.rpos <= int(pk.Mods.MaxSize)
+
+// the packet encoders: frame only here (bytes are C26); assumption A-enc-size: one encoded packet is shorter than 4 GiB
+// (the remaining-length varint caps a well-formed packet at 256 MiB)
+// verif:func packets.Packet.ConnectEncode trusted
+//@ modifies buf.blen, buf.bdata
+//@ ensures buf.blen >= old(buf.blen) && buf.blen <= old(buf.blen) + 4294967295 && buf.rpos == old(buf.rpos)
+// verif:func packets.Packet.ConnackEncode trusted
+//@ modifies buf.blen, buf.bdata
+//@ ensures buf.blen >= old(buf.blen) && buf.blen <= old(buf.blen) + 4294967295 && buf.rpos == old(buf.rpos)
+// verif:func packets.Packet.PublishEncode trusted
+//@ modifies buf.blen, buf.bdata
+//@ ensures buf.blen >= old(buf.blen) && buf.blen <= old(buf.blen) + 4294967295 && buf.rpos == old(buf.rpos)
+// verif:func packets.Packet.PubackEncode trusted
+//@ modifies buf.blen, buf.bdata
+//@ ensures buf.blen >= old(buf.blen) && buf.blen <= old(buf.blen) + 4294967295 && buf.rpos == old(buf.rpos)
+// verif:func packets.Packet.PubrecEncode trusted
+//@ modifies buf.blen, buf.bdata
+//@ ensures buf.blen >= old(buf.blen) && buf.blen <= old(buf.blen) + 4294967295 && buf.rpos == old(buf.rpos)
+// verif:func packets.Packet.PubrelEncode trusted
+//@ modifies buf.blen, buf.bdata
+//@ ensures buf.blen >= old(buf.blen) && buf.blen <= old(buf.blen) + 4294967295 && buf.rpos == old(buf.rpos)
+// verif:func packets.Packet.PubcompEncode trusted
+//@ modifies buf.blen, buf.bdata
+//@ ensures buf.blen >= old(buf.blen) && buf.blen <= old(buf.blen) + 4294967295 && buf.rpos == old(buf.rpos)
+// verif:func packets.Packet.SubscribeEncode trusted
+//@ modifies buf.blen, buf.bdata
+//@ ensures buf.blen >= old(buf.blen) && buf.blen <= old(buf.blen) + 4294967295 && buf.rpos == old(buf.rpos)
+// verif:func packets.Packet.SubackEncode trusted
+//@ modifies buf.blen, buf.bdata
+//@ ensures buf.blen >= old(buf.blen) && buf.blen <= old(buf.blen) + 4294967295 && buf.rpos == old(buf.rpos)
+// verif:func packets.Packet.UnsubscribeEncode trusted
+//@ modifies buf.blen, buf.bdata
+//@ ensures buf.blen >= old(buf.blen) && buf.blen <= old(buf.blen) + 4294967295 && buf.rpos == old(buf.rpos)
+// verif:func packets.Packet.UnsubackEncode trusted
+//@ modifies buf.blen, buf.bdata
+//@ ensures buf.blen >= old(buf.blen) && buf.blen <= old(buf.blen) + 4294967295 && buf.rpos == old(buf.rpos)
+// verif:func packets.Packet.PingreqEncode trusted
+//@ modifies buf.blen, buf.bdata
+//@ ensures buf.blen >= old(buf.blen) && buf.blen <= old(buf.blen) + 4294967295 && buf.rpos == old(buf.rpos)
+// verif:func packets.Packet.PingrespEncode trusted
+//@ modifies buf.blen, buf.bdata
+//@ ensures buf.blen >= old(buf.blen) && buf.blen <= old(buf.blen) + 4294967295 && buf.rpos == old(buf.rpos)
+// verif:func packets.Packet.DisconnectEncode trusted
+//@ modifies buf.blen, buf.bdata
+//@ ensures buf.blen >= old(buf.blen) && buf.blen <= old(buf.blen) + 4294967295 && buf.rpos == old(buf.rpos)
+// verif:func packets.Packet.AuthEncode trusted
+//@ modifies buf.blen, buf.bdata
+//@ ensures buf.blen >= old(buf.blen) && buf.blen <= old(buf.blen) + 4294967295 && buf.rpos == old(buf.rpos)
+// verif:func mqtt.Client.flushOutbuf
+//@ modifies cl.Net.outbuf, cl.Net.outbuf.rpos
+//@ ensures C34-flushed-or-error: err == nil ==> cl.Net.outbuf == nil
 
 // verif:func mqtt.Client.Stop trusted
 //@ modifies cl.stopped
@@ -206,7 +285,7 @@ package mqtt
 // ---- PINGREQ ----
 // verif:func mqtt.Server.processPingreq modifies=all
 //@ ensures table-object-kept: cl.State.Inflight == old(cl.State.Inflight)
-//@ requires cl != nil
+//@ requires validCl(cl)
 //@ ensures C07-pingresp-or-error: r0 == nil ==> sentOne(cl) && lastSent(cl).FixedHeader.Type == Pingresp
 
 // ---- C24: topic alias tables ----
@@ -572,7 +651,7 @@ package mqtt
 // verif:func mqtt.Server.processAuth trusted modifies=all
 //@ ensures cl.State.Inflight == old(cl.State.Inflight)
 // verif:func mqtt.Inflight.NextImmediate trusted
-// verif:def validDispatch(s *Server, cl *Client) bool = validClPub(cl) && validSrv(s) && s.Topics != nil && cl.State.Subscriptions != nil && cl.State.Subscriptions.internal != nil && s.Options.Capabilities.MaximumQos <= 2 && !has(ifl(cl), 0)
+// verif:def validDispatch(s *Server, cl *Client) bool = validClPub(cl) && validSrv(s) && s.loop != nil && s.loop.willDelayed != nil && s.Topics != nil && cl.State.Subscriptions != nil && cl.State.Subscriptions.internal != nil && s.Options.Capabilities.MaximumQos <= 2 && !has(ifl(cl), 0)
 
 // verif:func mqtt.Server.processPacket modifies=all
 //@ requires validDispatch(s, cl) && publishErr == nil && !cl.stopped && !s.Options.Capabilities.Compatibilities.PassiveClientDisconnect
